@@ -38,7 +38,8 @@ VALUES = {
     "Resistivity": ["0.1 kohm_cm", "100 ohm_cm", "1 ohm_m"],
 }
 BAD_VALUES = ["abc", "5", "1 xyz"]  # v = 100 + index
-EREVS = ["0.0 mV", "-70 mV"]        # channel density: v = 10 * k + index of the erev in the cell (9 = anything else)
+EREVS = ["0.0 mV", "-70 mV"]        # channel density: v = 100 * k + 10 * ion + index of the erev (9 = anything else)
+IONS = ["non_specific", "na"]
 SETTERS = {"SpikeThresh": "set_spike_thresh", "InitMembPotential": "set_init_memb_potential",
            "SpecificCapacitance": "set_specific_capacitance", "Resistivity": "set_resistivity"}
 
@@ -111,7 +112,8 @@ def dump(cell):
         "InitMembPotential": [[index_of("InitMembPotential", p.value), p.segment_groups] for p in m("init_memb_potentials")],
         "SpecificCapacitance": [[index_of("SpecificCapacitance", p.value), p.segment_groups] for p in m("specific_capacitances")],
         "Resistivity": [[index_of("Resistivity", p.value), p.segment_groups] for p in (ip.resistivities if ip is not None else [])],
-        "ChannelDens": [[10 * int(p.id[2:]) + (EREVS.index(p.erev) if p.erev in EREVS else 9), p.segment_groups]
+        "ChannelDens": [[100 * int(p.id[2:]) + 10 * (IONS.index(p.ion) if p.ion in IONS else 9)
+                         + (EREVS.index(p.erev) if p.erev in EREVS else 9), p.segment_groups]
                         for p in m("channel_densities")],
     }
     return {"segs": segs, "groups": groups, "props": props}
@@ -130,6 +132,40 @@ def drop(kw, op):
     for name in op.get("omit", []):
         kw.pop(name, None)
     return kw
+
+
+# ---- the finished cell as a component tree, in the dump format of impl/gds_impl.py (field order from the tables)
+def tree_dump(o, order):
+    cname = type(o).__name__
+    out = []
+    for name in order[cname]:
+        v = getattr(o, name)
+        if name == "anytypeobjs_":
+            out.append([name, {"raw": [str(x) for x in (v or [])]}])
+        else:
+            out.append([name, tree_val(v, order)])
+    return {"cls": cname, "fields": out}
+
+
+def tree_val(v, order):
+    if v is None:
+        return None
+    if isinstance(v, bool):
+        return {"s": str(v)}
+    if isinstance(v, str):
+        return {"s": v}
+    if isinstance(v, int):
+        return {"i": v}
+    if isinstance(v, float):
+        r = repr(v)
+        return {"f": ("!" + r) if ("e" in r or "E" in r or "n" in r) else r}
+    if isinstance(v, list):
+        if all(hasattr(x, "member_data_items_") for x in v):
+            return {"l": [tree_dump(x, order) for x in v]}
+        return {"raw": [str(x) for x in v]}
+    if hasattr(v, "member_data_items_"):
+        return {"o": tree_dump(v, order)}
+    return {"raw": [repr(v)]}
 
 
 def apply(cell, op, doc=None):
@@ -237,6 +273,9 @@ def reload(doc):
     return new, new.cells[0]
 
 
+TREE_ORDER = None
+
+
 def run_case(case):
     if case["init"] == "factory":
         cell = neuroml.utils.component_factory("Cell", id="c")
@@ -276,6 +315,11 @@ def run_case(case):
             final["resolved"] = {g: query(cell, g) for g in ["all", "soma_group", "axon_group", "dendrite_group"]}
             final["resolved_user"] = {g.id: query(cell, g.id) for g in cell.morphology.segment_groups}
             final.update(verdicts(cell, doc))
+            if case.get("tree") and TREE_ORDER:
+                try:
+                    final["tree"] = tree_dump(cell, TREE_ORDER)
+                except BaseException as e:  # noqa
+                    final["tree"] = {"err": "%s: %s" % (type(e).__name__, str(e)[:200])}
             # ids in use are asked for again (last, so that a wrongly accepted one disturbs nothing above)
             ids = [s.id for s in cell.morphology.segments]
             probes = []
@@ -295,7 +339,9 @@ def run_case(case):
 
 
 def main():
+    global TREE_ORDER
     payload = json.load(sys.stdin)
+    TREE_ORDER = payload.get("tree_order")
     res = []
     sink = io.StringIO()
     with contextlib.redirect_stdout(sink):
